@@ -267,15 +267,6 @@ class Normaliser:
         self.sigs = Signatures(trees)
         self.nonnone = nonnone_containers(trees)
         self.tuple_containers = tuple_containers(trees)
-        # names bound exactly once (class or module level) to a tuple of plain names, never re-bound as attributes: exception families
-        cnt: dict[str, list[ast.AST]] = {}
-        for t in trees:
-            for x in ast.walk(t):
-                if isinstance(x, ast.Assign) and len(x.targets) == 1 and isinstance(x.targets[0], ast.Name):
-                    cnt.setdefault(x.targets[0].id, []).append(x.value)
-        self.exc_tuples = {k: v[0] for k, v in cnt.items() if len(v) == 1 and isinstance(v[0], ast.Tuple) and v[0].elts
-                           and all(isinstance(e, (ast.Name, ast.Attribute)) for e in v[0].elts) and k not in self.mutable_attrs
-                           and any(ast.unparse(e).split(".")[-1].endswith(("Error", "Exception", "Interrupt", "Exit", "Terminate", "error", "timeout")) for e in v[0].elts)}
         self.subclassed = {ast.unparse(b).split(".")[-1] for t in trees for c in ast.walk(t) if isinstance(c, ast.ClassDef) for b in c.bases}
         # attribute names that some function other than an __init__ (or a class body) assigns: `x.attr` may change under a reader
         self.mutable_attrs: set[str] = set()
@@ -285,6 +276,15 @@ class Normaliser:
                     for x in ast.walk(fnode):
                         if isinstance(x, ast.Attribute) and isinstance(x.ctx, (ast.Store, ast.Del)):
                             self.mutable_attrs.add(x.attr)
+        # names bound exactly once (class or module level) to a tuple of plain names, never re-bound as attributes: exception families
+        cnt: dict[str, list[ast.AST]] = {}
+        for t in trees:
+            for x in ast.walk(t):
+                if isinstance(x, ast.Assign) and len(x.targets) == 1 and isinstance(x.targets[0], ast.Name):
+                    cnt.setdefault(x.targets[0].id, []).append(x.value)
+        self.exc_tuples = {k: v[0] for k, v in cnt.items() if len(v) == 1 and isinstance(v[0], ast.Tuple) and v[0].elts
+                           and all(isinstance(e, (ast.Name, ast.Attribute)) for e in v[0].elts) and k not in self.mutable_attrs
+                           and any(ast.unparse(e).split(".")[-1].endswith(("Error", "Exception", "Interrupt", "Exit", "Terminate", "error", "timeout")) for e in v[0].elts)}
         # module constants `NAME = range(a, b)` assigned exactly once in the package
         seen: dict[str, list[ast.AST]] = {}
         for t in trees:
